@@ -490,8 +490,45 @@ pub fn gen_case(seed: u64, shard: u64, run: u64, t: &Tier) -> Option<Case> {
         if t2.mode == Mode::NoCheck && knobs.chance(0.5) {
             t2.mode = Mode::First;
         }
+        // half of the time the SAME table retuned (same keys, same counts, other values)
+        let same_shape = knobs.chance(0.5);
+        let mut lifted = false;
+        if same_shape && knobs.chance(0.6) {
+            // guided: in the first phase exactly the pairs that make some candidate collide are
+            // exempt (the candidate is legal and free: it must be offered); in the second phase
+            // the exemption is lifted by overwriting the values of the same keys
+            let mut order: Vec<usize> = (0..12).collect();
+            for i in (1..order.len()).rev() {
+                order.swap(i, w.below(i + 1));
+            }
+            for c in order {
+                let j = c / 2;
+                let mut q = initial;
+                q[j] = if c % 2 == 0 { from[j] } else { to[j] };
+                let b = oracle::brute_q(&oc, &q, &cell.safety);
+                let pairs = b.definite();
+                if pairs.is_empty() || pairs.len() > 4 || b.any_dont_care() {
+                    continue;
+                }
+                let (mut first, mut second) = (cell.safety.clone(), cell.safety.clone());
+                for (a, bb) in pairs {
+                    let d = cell.safety.distance(a, bb);
+                    first.special.retain(|s| !((s.0 as usize, s.1 as usize) == (a, bb) || (s.0 as usize, s.1 as usize) == (bb, a)));
+                    second.special.retain(|s| !((s.0 as usize, s.1 as usize) == (a, bb) || (s.0 as usize, s.1 as usize) == (bb, a)));
+                    first.special.push((a as u16, bb as u16, NEVER));
+                    second.special.push((a as u16, bb as u16, d));
+                }
+                cell.safety = first;
+                t2 = second;
+                lifted = true;
+                break;
+            }
+        }
+        if same_shape && !lifted {
+            t2 = gen::retune_safety(&mut w, &cell.safety);
+        }
         // move the first obstacle onto (or away from) where a candidate puts the robot
-        let move_env0 = if n_env > 0 && knobs.chance(0.7) {
+        let move_env0 = if n_env > 0 && !lifted && knobs.chance(if same_shape { 0.3 } else { 0.7 }) {
             let mut q = initial;
             let j = w.below(6);
             q[j] = if w.chance(0.5) { from[j] } else { to[j] };
@@ -542,6 +579,7 @@ pub fn run(tier_name: &str, seed: u64) -> i32 {
                     tally.bump("sched_branching_points", c.branching);
                     tally.max("max_runnable_tasks", c.max_runnable as u64);
                     tally.bump("par_calls", c.n_par_calls);
+                    tally.bump("work_steals_while_blocked_ran", c.n_steals_ran);
                     tally.bump("par_calls_nested", c.n_nested);
                     tally.bump("par_calls_multiworker", c.n_par_multiworker);
                     tally.bump("find_any_races", c.n_find_any_races);
